@@ -10,6 +10,8 @@ from ..exact import fzero, finf, fninf, fnan, raw_json as J, raw_unjson as U
 
 ID = "C02"
 LEVEL = "exploration"
+CASE_TIMEOUT = 30.0          # each case is a micro/milli-second integer kernel
+HANG_IS_VIOLATION = True
 RULE = ("Cases = (entry point, operand raw bit patterns, precision, rounding mode) built by the structural "
         "generators of vfw/gen.py (mantissa classes: all-ones, 2^k+1, exact ties, tie+-1, prec-relative lengths; "
         "second operand drawn relative to the first with exponent offsets 0,+-1,+-99..102,+-(p+3..5), top-bit "
